@@ -8,7 +8,9 @@ driver `SB3Verif/Driver/C10.lean` evaluates on the traces measured from the real
 What is proved (category "other"/partial): a NON-INTERFERENCE statement about the seeding plumbing.  For every
 configuration, every length and every data-dependent branch of a training run, the list of values handed out by
 the library's draw sites depends on the ambient state of the random generators only through the seed — because
-every draw site reads a generator that `set_random_seed` / `action_space.seed` / `env.seed`+`reset` assigned before.
+every draw site reads a generator that `set_random_seed` / `action_space.seed` / `env.seed`+`reset` assigned before,
+and the state inside the action-noise object of the configuration is re-initialised by `_setup_learn` before its
+first use.
 
 What is NOT proved here and is measured by `harness/c10.py` on the real code instead:
 * which generator each draw site of the real code reads (the correspondence streams `sites`, `lowness`,
@@ -108,15 +110,17 @@ theorem sub_env_streams_distinct (cfg : Cfg) (i j : Nat) (h : i ≠ j) :
   omega
 
 /-- Changing only the seed changes the stream of every draw site (stream identity, not PRNG values: that the
-values differ is tested by run C of the differential). -/
+values differ is tested by run C of the differential).  The state inside the action-noise object is excluded:
+it restarts from the same constant under every seed (its increments come from the `np` draws, which are covered). -/
 theorem different_seed_changes_streams (cfg cfg' : Cfg) (hs : cfg.seed ≠ cfg'.seed)
     (ds ds' : List Nat) (evs evs' : List Ev) (g g' : RngState) (d d' : Draw)
     (hd : d ∈ outputs (libTrace cfg ds evs) g) (hd' : d' ∈ outputs (libTrace cfg' ds' evs') g')
-    (hg : d.gen = d'.gen) : d.origin ≠ d'.origin := by
+    (hg : d.gen = d'.gen) (hnoise : d.gen ≠ .noise) : d.origin ≠ d'.origin := by
   obtain ⟨_, h2⟩ := library_outputs_from_seed cfg ds evs g d hd
   obtain ⟨_, h4⟩ := library_outputs_from_seed cfg' ds' evs' g' d' hd'
+  rw [hg] at hnoise
   rw [h2, h4, hg]
-  cases d'.gen <;> simp only [famOrigin, ne_eq, Origin.seed.injEq] <;> omega
+  cases hd : d'.gen <;> simp only [famOrigin, ne_eq, Origin.seed.injEq] <;> first | omega | (exact absurd hd hnoise)
 
 /-- Remark (true of the code as well): sub-env `i+1` under seed `s` reads the stream of sub-env `i` under seed
 `s+1` — "a different seed" shares environment streams with its neighbours, shifted by one env. -/
@@ -179,6 +183,26 @@ theorem missing_global_seed_breaks_it (x : Gen) (s k : Nat) (seeded : List Gen) 
       · simp [lowStep, hos, hl.1, h]
   simp [h1, traceOK, opOK, h2 seeded Low.bot hx rfl]
 
+/-- **State inside objects of the configuration.**  The action-noise object may have been used before (an earlier
+run with the very same kwargs that stopped in the middle of an episode): `library_trace_is_seeded` holds because
+`_setup_learn` resets it before the first step, for every number of envs.  Without that reset (e.g. resetting
+only when `num_envs > 1`) the first Ornstein-Uhlenbeck draw depends on the leftover state: not reproducible. -/
+theorem dropping_noise_reset_breaks_it (cfg : Cfg) (resetDraws : List Nat) (k : Nat) :
+    ∃ g g' : RngState,
+      outputs (construct cfg ++ segOps cfg (.reset resetDraws) ++ [.draw .noise k]) g ≠
+      outputs (construct cfg ++ segOps cfg (.reset resetDraws) ++ [.draw .noise k]) g' :=
+  rejected_trace_depends_on_ambient_state _
+    (traceOK_snoc_draw Low.bot _ .noise k (noReset_noise_unmarked cfg resetDraws))
+
+/-- … and with the reset the noise state is a constant from the first `learn()` on, whatever it held before. -/
+theorem action_noise_state_is_reset (cfg : Cfg) (resetDraws : List Nat) (evs : List Ev) (g g' : RngState)
+    (h : cfg.noise ≠ .none) :
+    (run (libTrace cfg resetDraws evs) g).1.gens .noise = (run (libTrace cfg resetDraws evs) g').1.gens .noise ∧
+    ((run (libTrace cfg resetDraws evs) g).1.gens .noise).origin = .const := by
+  have hf : inFamily cfg .noise = true := by simpa [inFamily] using h
+  exact ⟨library_final_state_seeded cfg resetDraws evs g g' .noise hf,
+    (libTrace_run cfg resetDraws evs g).1.1 .noise hf⟩
+
 /-- Dropping `env.seed(seed)`: the sub-environments keep their ambient generators through the reset. -/
 theorem missing_env_seed_breaks_it (s n i k : Nat) :
     ∃ g g' : RngState,
@@ -198,6 +222,22 @@ def exampleEvents : List Ev :=
   [.rolloutStart, .step 0 0 false [1, 1], .step 2 1 true [1, 3], .rolloutEnd, .train 2 false false, .reset [2, 2]]
 
 example : traceOK Low.bot (libTrace exampleCfg [2, 2] exampleEvents) = true := by decide
+
+/-- TD3, one env, Ornstein-Uhlenbeck noise, a second `learn()` -/
+def exampleCfgOU : Cfg :=
+  { exampleCfg with algo := .td3, nEnvs := 1, noise := .ou, learningStarts := 0, cnn := false, envPy := false }
+
+def exampleEventsOU : List Ev :=
+  [.rolloutStart, .step 0 0 false [1], .rolloutEnd, .train 1 true false, .learnStart, .reset [2], .step 1 0 false [3]]
+
+example : traceOK Low.bot (libTrace exampleCfgOU [2] exampleEventsOU) = true := by decide
+
+/-- the same run without the two `action_noise.reset()` calls is rejected -/
+example : traceOK Low.bot (construct exampleCfgOU ++ segOps exampleCfgOU (.reset [2]) ++
+    eventsOps exampleCfgOU [.rolloutStart, .step 0 0 false [1]]) = false := by decide
+
+/-- hypothesis of `action_noise_state_is_reset` -/
+example : exampleCfgOU.noise ≠ .none := by decide
 
 example : (outputs (libTrace exampleCfg [2, 2] exampleEvents) (ambientState 3 (some 11))).length = 21 := by decide
 
@@ -221,5 +261,7 @@ example : Gen.np ∉ [Gen.py, Gen.torch, Gen.actSpace] := by decide
 
 /-- hypothesis of `different_seed_changes_streams` -/
 example : exampleCfg.seed ≠ { exampleCfg with seed := 8 }.seed := by decide
+
+example : Gen.np ≠ Gen.noise ∧ Gen.env 1 ≠ Gen.noise := by decide
 
 end SB3Verif.C10
